@@ -58,6 +58,7 @@ def report_walk(ctx, trace, vs, monitors, mode):
 # step-by-step walker models: key -> (TLA+ module, configuration stem, replay_walk arguments before the TLC output path)
 MODELS = {
     "amd64": ("WalkerAmd64", "MC_WalkerAmd64", ["amd64"]),
+    "amd64-windows": ("WalkerAmd64", "MC_WalkerAmd64win", ["amd64win"]),
     "x86": ("WalkerX86", "MC_WalkerX86", ["x86"]),
     "arm-ios": ("WalkerArm", "MC_WalkerArm_arm_ios", ["arm", "ios"]),
     "arm-linux": ("WalkerArm", "MC_WalkerArm_arm_linux", ["arm", "linux"]),
@@ -102,7 +103,7 @@ def run(ctx):
     others = {}
     traces = []
     last64 = None
-    for arch in ("x86", "arm-ios", "arm-linux", "arm64", "arm64old", "mips32", "mips64"):
+    for arch in ("amd64-windows", "x86", "arm-ios", "arm-linux", "arm64", "arm64old", "mips32", "mips64"):
         mc2, rep2, trace2 = run_model_arch(ctx, arch, None, False, reuse=last64 if arch == "arm64old" else None)
         if arch == "arm64":
             last64 = mc2
